@@ -38,6 +38,28 @@ Fixpoint bytes_join (sep : list Z) (ls : list (list Z)) : list Z :=
   | x :: rest => x ++ sep ++ bytes_join sep rest
   end.
 
+(* b"x" in l *)
+Definition bytes_contains1 (c : Z) (l : list Z) : bool := existsb (Z.eqb c) l.
+(* l.replace(b"x", new) for a one-byte pattern *)
+Definition bytes_replace1 (c : Z) (new l : list Z) : list Z := flat_map (fun x => if x =? c then new else [x]) l.
+
+(* str(n).encode() / b"%d" % n for n >= 0 *)
+Fixpoint uint_bytes (d : Decimal.uint) : list Z :=
+  match d with
+  | Decimal.Nil => []
+  | Decimal.D0 d => 48 :: uint_bytes d
+  | Decimal.D1 d => 49 :: uint_bytes d
+  | Decimal.D2 d => 50 :: uint_bytes d
+  | Decimal.D3 d => 51 :: uint_bytes d
+  | Decimal.D4 d => 52 :: uint_bytes d
+  | Decimal.D5 d => 53 :: uint_bytes d
+  | Decimal.D6 d => 54 :: uint_bytes d
+  | Decimal.D7 d => 55 :: uint_bytes d
+  | Decimal.D8 d => 56 :: uint_bytes d
+  | Decimal.D9 d => 57 :: uint_bytes d
+  end.
+Definition bytes_dec (n : Z) : list Z := uint_bytes (N.to_uint (Z.to_N n)).
+
 Lemma split2_cons2 a b x y l :
   split2 a b (x :: y :: l) =
   if (x =? a) && (y =? b) then [] :: split2 a b l
